@@ -138,8 +138,9 @@ def read_model_parameters(
         # if normal year
 
         # Check if the simulation in the following year does not exceed planting date.
-        mock_simulation_end_date = pd.to_datetime("1990/" + f'{sim_end_date.month}' + "/" + f'{sim_end_date.day}')
-        mock_simulation_start_date = pd.to_datetime("1990/" + crop.planting_date)
+        # (a leap year is used as the arbitrary year so that an end date of 29 February is valid)
+        mock_simulation_end_date = pd.to_datetime("2000/" + f'{sim_end_date.month}' + "/" + f'{sim_end_date.day}')
+        mock_simulation_start_date = pd.to_datetime("2000/" + crop.planting_date)
         last_simulation_year_does_not_start = mock_simulation_end_date <= mock_simulation_start_date
 
         if last_simulation_year_does_not_start:
